@@ -496,6 +496,33 @@ def d(t: T, a: Bytes[100]):
 }
 
 
+CORPUS["deepstack"] = """
+@external
+def many(a0: uint256, a1: uint256, a2: uint256, a3: uint256, a4: uint256, a5: uint256, a6: uint256, a7: uint256, a8: uint256, a9: uint256, a10: uint256, a11: uint256, a12: uint256, a13: uint256, a14: uint256, a15: uint256, a16: uint256, a17: uint256, a18: uint256, a19: uint256) -> uint256:
+    b0: uint256 = a0 * 3 + a7
+    b1: uint256 = a1 * 4 + a8
+    b2: uint256 = a2 * 5 + a9
+    b3: uint256 = a3 * 6 + a10
+    b4: uint256 = a4 * 7 + a11
+    b5: uint256 = a5 * 8 + a12
+    b6: uint256 = a6 * 9 + a13
+    b7: uint256 = a7 * 10 + a14
+    b8: uint256 = a8 * 11 + a15
+    b9: uint256 = a9 * 12 + a16
+    b10: uint256 = a10 * 13 + a17
+    b11: uint256 = a11 * 14 + a18
+    b12: uint256 = a12 * 15 + a19
+    b13: uint256 = a13 * 16 + a0
+    b14: uint256 = a14 * 17 + a1
+    b15: uint256 = a15 * 18 + a2
+    b16: uint256 = a16 * 19 + a3
+    b17: uint256 = a17 * 20 + a4
+    b18: uint256 = a18 * 21 + a5
+    b19: uint256 = a19 * 22 + a6
+    return (b0 + a0) ^ (b1 + a1) ^ (b2 + a2) ^ (b3 + a3) ^ (b4 + a4) ^ (b5 + a5) ^ (b6 + a6) ^ (b7 + a7) ^ (b8 + a8) ^ (b9 + a9) ^ (b10 + a10) ^ (b11 + a11) ^ (b12 + a12) ^ (b13 + a13) ^ (b14 + a14) ^ (b15 + a15) ^ (b16 + a16) ^ (b17 + a17) ^ (b18 + a18) ^ (b19 + a19)
+"""
+
+
 def example_sources(repo: Path):
     out = {}
     for p in sorted((repo / "examples").rglob("*.vy")):
